@@ -169,7 +169,7 @@ def name_failure(b, em):
         if not unit and e.get("unit"):
             unit = e["unit"]
         k = e.get("kind", "")
-        if clause is None and (k in ("ensures", "requires", "proof", "decreases") or k.startswith("loop")):
+        if clause is None and (k in ("ensures", "requires", "proof", "decreases") or k.startswith("loop") or k.startswith("zloop")):
             clause = e
         if src is None and k == "code" and e.get("line"):
             src = e
@@ -207,6 +207,6 @@ def count_clauses(em):
     c = {}
     for e in em.map:
         k = e.get("kind", "")
-        if k in ("ensures", "requires", "decreases") or k.startswith("loop") or k == "proof":
+        if k in ("ensures", "requires", "decreases") or k.startswith("loop") or k.startswith("zloop") or k == "proof":
             c[k] = c.get(k, 0) + 1
     return c
